@@ -70,6 +70,8 @@ func (s *PythonIdentListener) EnterFrom_stmt(ctx *parser.From_stmtContext) {
 	if asNameCtx.OPEN_PAREN() != nil {
 		usageName = asNameCtx.Import_as_names().GetText()
 	}
+	// from a import (b, c,): the comma after the last name separates nothing
+	usageName = strings.TrimSuffix(usageName, ",")
 	if strings.Contains(usageName, ",") {
 		usageNames := strings.Split(usageName, ",")
 		codeImport.UsageName = append(codeImport.UsageName, usageNames...)
